@@ -131,11 +131,17 @@ def nodes_preorder(n, out=None, _d=0):
 
 def root_of(n):
     seen = 0
+    ids = None
     while n.parent is not None:
         n = n.parent
         seen += 1
         if seen > 10000:
-            raise RecursionError("parent chain cyclic")
+            # very deep or cyclic?  from here on remember what was seen
+            if ids is None:
+                ids = set()
+            if id(n) in ids or seen > 2000000:
+                raise RecursionError("parent chain cyclic")
+            ids.add(id(n))
     return n
 
 
